@@ -12,6 +12,7 @@ from ..engine import rule
 from ..model import Undecided
 from ..cfg import dotted, call_name, is_call, simple_name, unparse, const_value, contains, enclosing, find_all
 from ..flow import expand, Defs, depends, try_const
+from ..decide import table, ret_kind
 from ..util import keyword, returns_of, calls_in, inside, order_key
 
 NOT_DECIDED = 'torn writes, directory states after a crash, durability (fsync), non-POSIX rename semantics'
@@ -348,9 +349,10 @@ def c06d(ctx):
     # V2 is_cached
     fn = ctx.fn(COMPACT + ':BundleV2.is_cached')
     g = fn.cfg
-    trues = [n for n in g.find_stmts(lambda s: isinstance(s, ast.Return) and const_value(s.value) is True)]
-    ok = bool(trues) and all(g.guarded(n, lambda at: at.op is None and unparse(at.expr) == 'size', True) or
-                             g.guarded(n, lambda at: at.op == '==' and zero_atom('size')(at), False) for n in trues)
+    tab = ctx.rows(table(fn.node.body, ret_kind, bool_returns=True))
+    nz = [a for a in tab.atoms if a == 'size'] or [a for a in tab.atoms if zero_atom('size')(tab.atom_objs[a]) and tab.atom_objs[a].op == '==']
+    trues = [asg for asg, out, _ in tab.assignments() if out == 'return True']
+    ok = bool(trues) and len(nz) == 1 and all(asg[nz[0]] == (nz[0] == 'size') for asg in trues)
     ctx.check(ok, 'BundleV2.is_cached:size-guarded', 'is_cached returns True only for a non-zero size', fn)
     # readers treat a missing file as missing tile (readonly yields None)
     for qn in (COMPACT + ':BundleIndexV1.readonly', COMPACT + ':BundleV2._readonly'):
